@@ -753,6 +753,8 @@ class Name:
                         out += label.lower()
                     else:
                         out += label
+                if len(out) > 255:
+                    raise NameTooLong
             return bytes(out)
 
         labels: Iterable[bytes]
@@ -761,6 +763,8 @@ class Name:
                 raise NeedAbsoluteNameOrOrigin
             labels = list(self.labels)
             labels.extend(list(origin.labels))
+            if _wire_length(labels) > 255:
+                raise NameTooLong
         else:
             labels = self.labels
         i = 0
